@@ -49,7 +49,16 @@ def make_formula_body(formula, default_value, assoc_value=None, indent=''):
   with the formula transformed to replace `$foo` with `rec.foo`, and to insert `return` if
   appropriate. Assoc_value is associated with textbuilder.Text() to be returned by map_back_patch.
   """
-  formula_body = _do_make_formula_body(formula, default_value, assoc_value=assoc_value)
+  try:
+    formula_body = _do_make_formula_body(formula, default_value, assoc_value=assoc_value)
+  except RecursionError:
+    # Nested too deeply for the parser (e.g. thousands of chained operators). Treat it like any other
+    # formula that can't be parsed: code that raises a SyntaxError, rather than a failure of the caller.
+    if isinstance(formula, bytes):
+      formula = formula.decode('utf8')
+    error = GristSyntaxError("Formula is nested too deeply to parse", ('<string>', 1, 1, ""))
+    unparsed = textbuilder.Replacer(textbuilder.Text(formula, None), [])
+    formula_body = textbuilder.Text(_create_syntax_error_code(unparsed, formula, error))
   indented_formula_body = _indent(formula_body, indent=indent)
 
   if indent and getattr(formula_body, 'have_multiline_strings', None):
